@@ -242,11 +242,12 @@ type tierAResult struct {
 
 // tierA generates design d `reps` times in-process into root/r<k>/<sub> (module tb in
 // root/r<k>) and compares. stream names the case stream for failure inputs.
-func tierA(d *dg.Design, root, sub string, reps int, stream, outFlag string) *tierAResult {
+func tierA(d *dg.Design, root, sub string, reps, extraGen int, stream, outFlag string) *tierAResult {
 	out := &tierAResult{}
 	in := Input{Stream: stream, Design: d}
 	var refGen, refAll map[string]string
-	for k := 0; k < reps; k++ {
+	// repetitions 0..reps-1 run gen and example; extraGen more repetitions run gen only
+	for k := 0; k < reps+extraGen; k++ {
 		modroot := filepath.Join(root, fmt.Sprintf("r%d", k))
 		if _, err := os.Stat(filepath.Join(modroot, "go.mod")); err != nil {
 			if err := dg.WriteModule(modroot, "tb", repo, ""); err != nil {
@@ -274,6 +275,13 @@ func tierA(d *dg.Design, root, sub string, reps int, stream, outFlag string) *ti
 			return out
 		}
 		sGen := shaOnly(snapshot(dir))
+		if k >= reps {
+			if df := diffSnap(refGen, sGen); len(df) > 0 {
+				fail("gen-output-differs-between-runs", fmt.Sprintf("two in-process generations of one design differ (repetition 0 vs %d): %s", k, strings.Join(df, "; ")), in)
+				break
+			}
+			continue
+		}
 		setCmdline("example", outFlag)
 		_, err, pan = dg.Generate(dir, "example")
 		if err != nil || pan != "" {
@@ -825,17 +833,34 @@ func fixedDesigns() []*dg.Design {
 				}},
 		}}
 
+	// six errors of six DIFFERENT Go types on one status code (and three more on another):
+	// the generators group errors by type reference and by status
+	var errTypes []*dg.UserType
+	var errs6 []dg.ErrorDef
+	var resp6 []dg.ErrResponse
+	for i := 0; i < 6; i++ {
+		n := fmt.Sprintf("ErrT%d", i)
+		errTypes = append(errTypes, &dg.UserType{Name: n, Base: dg.Obj(dg.Req(fmt.Sprintf("msg%d", i), dg.Prim("String")), dg.F("code", dg.Prim("Int")))})
+		t := dg.Ref(n)
+		errs6 = append(errs6, dg.ErrorDef{Name: fmt.Sprintf("e%d", 5-i), T: &t})
+		resp6 = append(resp6, dg.ErrResponse{Name: fmt.Sprintf("e%d", 5-i), R: dg.Response{Status: 400}})
+	}
+	t3, t4, t5 := dg.Ref("ErrT3"), dg.Ref("ErrT4"), dg.Ref("ErrT5")
+	errs3 := []dg.ErrorDef{{Name: "c_z", T: &t3}, {Name: "c_a", T: &t5}, {Name: "c_m", T: &t4}, {Name: "c_plain"}}
+	resp3 := []dg.ErrResponse{{Name: "c_z", R: dg.Response{Status: 409}}, {Name: "c_a", R: dg.Response{Status: 409}}, {Name: "c_m", R: dg.Response{Status: 409}}, {Name: "c_plain", R: dg.Response{Status: 409}}}
 	d3 := &dg.Design{Name: "plain", BasePath: "/v1",
-		Types: []*dg.UserType{
+		Types: append(errTypes, []*dg.UserType{
 			{Name: "Obj0", Base: dg.Obj(dg.Req("id", dg.Prim("UInt64")), dg.F("when", dg.Prim("String")).With(dg.Validation{Format: "date-time"}),
 				dg.F("inner", dg.Obj(dg.F("a", dg.Prim("Boolean")), dg.F("b", dg.Prim("Bytes")))), dg.F("child", dg.Ref("Obj0")))},
 			{Name: "Obj1", Extend: "Obj0", Base: dg.Obj(dg.F("extra", dg.Prim("Int32")).Def(float64(3)))},
-		},
+		}...),
 		Services: []*dg.Service{{Name: "calc", Methods: []*dg.Method{
 			{Name: "add", Payload: &dg.Attr{T: dg.Obj(dg.Req("a", dg.Prim("Int")), dg.Req("b", dg.Prim("Int")))}, Result: &dg.Attr{T: dg.Prim("Int")},
-				HTTP: &dg.HTTPMap{Routes: []dg.Route{{Verb: "GET", Path: "/add/{a}/{b}"}}}},
+				Errors: errs3,
+				HTTP:   &dg.HTTPMap{Routes: []dg.Route{{Verb: "GET", Path: "/add/{a}/{b}"}}, Errors: resp3}},
 			{Name: "echo", Payload: &dg.Attr{T: dg.Ref("Obj1")}, Result: &dg.Attr{T: dg.Ref("Obj0")},
-				HTTP: &dg.HTTPMap{Routes: []dg.Route{{Verb: "POST", Path: "/echo"}},
+				Errors: errs6,
+				HTTP: &dg.HTTPMap{Routes: []dg.Route{{Verb: "POST", Path: "/echo"}}, Errors: resp6,
 					Responses: []dg.Response{{Status: 200, Headers: []dg.MapEntry{{Attr: "when", Wire: "X-When"}}}}}},
 			{Name: "nothing", HTTP: &dg.HTTPMap{Routes: []dg.Route{{Verb: "DELETE", Path: "/nothing"}}}},
 		}}}}
@@ -1076,6 +1101,10 @@ func main() {
 		fmt.Sscan(v, &nCLI)
 	}
 	var designs []*dg.Design
+	nFixed, fixedExtra := 0, 10
+	if *tier == "thorough" || *search {
+		fixedExtra = 30
+	}
 	if *replay != "" {
 		b, err := os.ReadFile(*replay)
 		if err != nil {
@@ -1103,6 +1132,7 @@ func main() {
 	} else {
 		fixed := fixedDesigns()
 		designs = append(designs, fixed...)
+		nFixed = len(fixed)
 		for i := 0; len(designs) < nA; i++ {
 			d := dg.Random(rng.Fork(), dg.DefaultOptions(), i)
 			if *search || i%4 == 3 {
@@ -1123,10 +1153,14 @@ func main() {
 		if *search {
 			stream = "search"
 		}
-		r := tierA(d, taRoot, fmt.Sprintf("d%d", i), repsA, stream, "")
+		extra := 0
+		if i < nFixed {
+			extra = fixedExtra // the feature designs put >= 2 entries into the generators' internal maps: many more orders
+		}
+		r := tierA(d, taRoot, fmt.Sprintf("d%d", i), repsA, extra, stream, "")
 		ta = append(ta, r)
 		if r.Generated {
-			evaluations += repsA * 2
+			evaluations += repsA*2 + extra
 			distinct.Add(d.JSON())
 			count("tierA_designs_generated")
 			for _, f := range d.Features {
@@ -1218,7 +1252,7 @@ func main() {
 		if outOf[di] != "" {
 			sub = outOf[di]
 		}
-		r := tierA(d, filepath.Join(workDir, "ta_cli"), sub, 1, "tierA", outOf[di])
+		r := tierA(d, filepath.Join(workDir, "ta_cli"), sub, 1, 0, "tierA", outOf[di])
 		os.RemoveAll(filepath.Join(workDir, "ta_cli"))
 		if r.Generated {
 			if f, ok := fresh["gen"]; ok {
@@ -1329,7 +1363,7 @@ func main() {
 	if err := os.WriteFile(filepath.Join(*out, "cases_fs.txt"), []byte(strings.Join(cases, "\n")+"\n"), 0o644); err != nil {
 		panic(err)
 	}
-	finish(*out, evaluations, len(distinct), fmt.Sprintf("tier A: %d fixed covering designs (metadata with several struct:field:*/struct:tag:* keys per attribute, recursive result types with views and collections, the four security kinds, file server, errors, Extend, defaults, validations) then designgen.Random designs (every 4th loaded with metadata), each evaluated through the real DSL and generated (gen + example) %d times in-process into fresh directories; CLI: the first %d generated designs printed as design packages, histories %v, %d fresh-process runs per history on one output directory each; metadata probe: a design with API/service/method-level openapi:tag:*/extension/operationId metadata, two response cookies and file servers, OpenAPI files rendered in memory 60 (600 thorough) times from fresh evaluations; witness: 120 in-memory renderings of the OpenAPI files of the summary-alias design; evaluations = generator runs (tier A) + executed history steps (CLI) + witness renderings; distinct = distinct design descriptions per stream",
+	finish(*out, evaluations, len(distinct), fmt.Sprintf("tier A: %d fixed feature designs (metadata with several struct:field:*/struct:tag:* keys per attribute, recursive result types with views and collections, the four security kinds, two services, file server, six errors of six different types on one status code plus four on another, Extend, defaults, validations; each generated 10 (quick) / 30 (thorough, search) more times, gen only) then designgen.Random designs (every 4th loaded with metadata), each evaluated through the real DSL and generated (gen + example) %d times in-process into fresh directories; CLI: the first %d generated designs printed as design packages, histories %v, %d fresh-process runs per history on one output directory each; metadata probe: a design with API/service/method-level openapi:tag:*/extension/operationId metadata, two response cookies and file servers, OpenAPI files rendered in memory 60 (600 thorough) times from fresh evaluations; witness: 120 in-memory renderings of the OpenAPI files of the summary-alias design; evaluations = generator runs (tier A) + executed history steps (CLI) + witness renderings; distinct = distinct design descriptions per stream",
 		len(fixedDesigns()), repsA, nCLI, hs, procs), nil)
 }
 
